@@ -487,3 +487,35 @@ TRUSTED = []
 ASSUMED_MODELS = []
 ASSUMPTIONS = []
 BOUNDED = []
+
+
+def known_findings(kf, violations, repo, tier):
+    """Recorded genuine defects (known_findings.json): each witness is replayed natively; a finding that still fails prints
+    KNOWN-FINDING and covers exactly its own obligation ids (those decode sites must additionally be replayed one by one:
+    a site whose own crafted input no longer fails is not covered)."""
+    import json
+    import os
+    import subprocess
+    out = []
+    vio = {v["id"]: v for v in violations}
+    root = os.path.dirname(os.path.dirname(os.path.abspath(__file__)))
+
+    def replay(req):
+        try:
+            p = subprocess.run(["/venv/bin/python", os.path.join(root, "replay", "run.py")], input=json.dumps(req), capture_output=True, text=True,
+                               timeout=600, env=dict(os.environ, VERIF_REPO=repo))
+            lines = [l for l in p.stdout.splitlines() if l.startswith("{")]
+            return json.loads(lines[-1]) if lines else {"reproduced": False}
+        except Exception as e:  # noqa
+            return {"reproduced": False, "note": str(e)}
+    for f in kf:
+        res = replay({"property": "C04", "obligation": f["obligation"], "known_finding": f["id"], "repo": repo})
+        still = bool(res.get("reproduced"))
+        covers = []
+        if still:
+            for oid in f.get("covers", [f["obligation"]]):
+                if oid in vio and replay({"property": "C04", "obligation": oid, "repo": repo}).get("reproduced"):
+                    covers.append(oid)
+        out.append({"finding": f["id"], "still_fails": still, "line": f"{f['id']}: {f['what']}", "covers": covers,
+                    "exclusion": f.get("exclusion"), "witness_replay": res.get("observed", res.get("note", ""))})
+    return out
